@@ -29,9 +29,11 @@ type SpecEnv struct {
 }
 
 func (e *SpecEnv) fail(x spec.Expr, format string, a ...any) Val {
+	// A clause that no longer fits the code (renamed variable, changed loop shape) means the proof does not go
+	// through: the unit leaves the verified subset and its obligations fail closed. (Syntax errors in contract
+	// files are fatal at load time instead.)
 	msg := fmt.Sprintf("%s: %s: in `%s`", x.Pos(), fmt.Sprintf(format, a...), x.String())
-	e.vc.W.SpecErrs = append(e.vc.W.SpecErrs, msg)
-	e.vc.outside("contract error: %s", msg)
+	e.vc.outside("contract clause does not apply to the current code: %s", msg)
 	return Val{T: types.Typ[types.Bool], Term: "false"}
 }
 
